@@ -66,6 +66,7 @@ def r_arc(ctx, fqs, floor=0, derived=True):
                 run.undecided('R-ARC', f, role, nd.lineno, why)
         # allocations
         a = 0
+        acc_names_ = ctx.kinds.acc_names(f)
         for dd in f.defs:
             if dd.kind != 'assign':
                 continue
@@ -73,6 +74,21 @@ def r_arc(ctx, fqs, floor=0, derived=True):
             if t is None:
                 continue
             rows = acc_alloc(t)
+            if rows is None and dd.name in acc_names_ and 'accessor' in dd.name and not dd.path:
+                # an accessor is allocated, returned by a function of the package, or a copy of another accessor; a table computed
+                # by any other expression (a look-up table indexed by the accessor, arithmetic on it) is not interpreted here
+                t0 = t
+                while (t0[0] == 'call' and t0[1][0] == 'attr' and t0[1][2] in ('copy', 'astype') and not t0[2][1:]) or \
+                        (is_call(t0, 'numpy.array', 'numpy.asarray', 'numpy.copy') and t0[2]):
+                    t0 = t0[1][1] if t0[1][0] == 'attr' else t0[2][0]
+                from_pkg = t0[0] == 'call' and t0[1][0] == 'g' and ctx.p.resolve_func(t0[1][1]) is not None
+                unpacked = t0[0] == 'item' and t0[1][0] == 'call' and t0[1][1][0] == 'g' and ctx.p.resolve_func(t0[1][1][1]) is not None
+                plain = t0[0] == 'v' or t0 == ('c', None)
+                if not (from_pkg or unpacked or plain):
+                    run.undecided('R-ARC', f, 'accessor-defined-by:%s' % dd.name, f.nodes[dd.node].lineno,
+                                  'the accessor `%s` is computed as %s: not an allocation, a result of the package or a copy'
+                                  % (dd.name, show(t)[:80]))
+                continue
             if rows is None:
                 continue
             a += 1
@@ -1442,6 +1458,26 @@ def r_useless_kept(ctx):
     run.rule('R-KEEP', "remove_useless keeps a successor w of a kept vertex only if w is itself a key that meets the "
                        "threshold (member of the saved list / of the map and not of the removed list)")
     g = ctx.p.func('dsw.graphized.remove_useless')
+    # the result is a map of its own: the parameter object itself is never what is returned (a caller that edits the result in
+    # place - remove_nasty_arc does - would otherwise edit the argument of an earlier call)
+    for rn in g.stmts(ast.Return):
+        if rn.stmt.value is None:
+            continue
+        rt = g.term(rn.stmt.value, rn)
+        if rt[0] == 'v' and rt[1] == 'latter_map':
+            whole = rt[2] == 'P' or (isinstance(rt[2], tuple) and any(g.defs[i].kind == 'param' for i in rt[2]))
+            # reaching definitions are path-insensitive (a `while flag:` loop whose flag starts true always runs once): the witness is
+            # a return INSIDE the trimming loop that a round reaches without having replaced the map in that round
+            if whole:
+                whole = False
+                for hid in rn.loops:
+                    for p_, k_ in ctx.body_paths(g, hid):
+                        if k_ == 'return' and p_ and p_[-1] == rn.id:
+                            if not any(d.name == 'latter_map' and d.kind == 'assign' and d.node in p_[:-1] for d in g.defs):
+                                whole = True
+            run.check(not whole, 'R-KEEP', g, 'result-is-a-new-map', rn.lineno, 'the returned map was rebuilt inside the function',
+                      'remove_useless returns its argument `latter_map` itself on a path (no round replaced it): the result aliases the '
+                      "caller's dictionary and lists, so an in-place edit of the result changes the argument", inputs='maps that need no trimming')
     n = 0
     sites = []          # (node, kept element term, [(membership atom, polarity)])
     for nd in g.nodes:
